@@ -136,7 +136,8 @@ def pool(ctx, rnd, n):
             s = rnd.choice([d.insert()[0], d.update()[0], d.other()[0]])
         else:
             s = g.statement()
-        out.append(s)
+        if len(s) <= 320:        # a long statement costs as much as fifty short ones and shows nothing more
+            out.append(s)
     return out
 
 
@@ -310,10 +311,10 @@ def run(ctx):
 
     ctx.log("tables and exclusion set done")
     # ---- the oracle (one worker per statement; every random choice derives from the statement's own seed)
-    stmts = pool(ctx, rnd, ctx.n(64, 1200))
+    stmts = pool(ctx, rnd, ctx.n(90, 1500))
     corpus = [c["sql"] for c in impl.corpus() if c["parser"] == "parse" and len(c["sql"]) < 300]
     rnd.shuffle(corpus)
-    stmts += corpus[:ctx.n(32, 600)]
+    stmts += corpus[:ctx.n(40, 600)]
     failures = {}            # site-set -> example
     unexplained = []
     nvar = 0
@@ -322,8 +323,10 @@ def run(ctx):
     ctx.traces = 0
     import multiprocessing as mp
     jobs = [(si, s, ctx.seed * 1000003 + si, ctx.tier, sorted(listed), ctx.n(40, 400)) for si, s in enumerate(stmts)]
-    with mp.get_context("fork").Pool(min(NCPU, 14)) as pl:
-        for res in pl.imap_unordered(work, jobs, chunksize=2):
+    jobs.sort(key=lambda j: -len(j[1]))          # long statements first: better balance
+    _W.update(reg=reg, T=T, P=P, kw=kw)          # forked workers inherit the tables
+    with mp.get_context("fork").Pool(min(NCPU, 16)) as pl:
+        for res in pl.imap_unordered(work, jobs, chunksize=1):
             nvar += res["nvar"]
             for v in res["distinct"]:
                 ctx.count(1, v)
